@@ -31,6 +31,21 @@ func vfNewVecGen(rt *rapid.T, dim int) *vfVecGen {
 	return g
 }
 
+// vfNewVecGenFor: under cosine only the DIRECTION of a vector matters, so any finite magnitude is in
+// the domain: scales whose squares leave float32's range (1e-25, 1e20) are drawn as well. (For the
+// Euclidean family the squares of the components have to stay inside float32's normal range - the
+// kernels accumulate in float32 - which is the documented precondition 1e-9..1e9 here.)
+func vfNewVecGenFor(rt *rapid.T, dim int, kind DistanceKind) *vfVecGen {
+	g := vfNewVecGen(rt, dim)
+	if kind == Cosine && rapid.IntRange(0, 5).Draw(rt, "extreme_magnitude") == 0 {
+		g.scale = rapid.SampledFrom([]float64{1e-25, 1e20, 1e-30, 3e37}).Draw(rt, "vec_scale_extreme")
+		if g.flavour != 2 {
+			g.flavour = 2 // the scaled flavour
+		}
+	}
+	return g
+}
+
 func vfSnap(x float64) float64 {
 	if math.Abs(x) < 1e-3 {
 		return 0
